@@ -230,6 +230,12 @@ def cases(tier):
                     out.append({"kind": "fault", "net": kind, "sector": sector, "fn": fname, "fault": fi, "fault_name": fault, "pos": pos})
     for fname in registry(True):
         out.append({"kind": "doc", "fn": fname})
+    # histories: a valid call, then the same call again with the index it just got (must be refused, net unchanged),
+    # then the valid call once more (must behave as on a fresh table)
+    for kind in ("junction_only", "populated"):
+        for sector in (("all", "none") if tier == "quick" else SECTORS):
+            for fname in registry(kind == "populated"):
+                out.append({"kind": "history", "net": kind, "sector": sector, "fn": fname})
     for name in ("sinks", "sources", "ext_grids", "pipes", "pipes_from_parameters", "valves", "pressure_controls", "flow_controls",
                  "heat_exchangers", "heat_consumers", "junctions"):
         for sector in ("all", "heat") if tier == "quick" else SECTORS:
@@ -357,6 +363,8 @@ def run_case(case):
         return {"status": "ok", "violations": vs, "nontrivial": n > 0, "sig": core.jhash(case)}
     if k == "bulk_vs_single":
         return bulk_vs_single(case)
+    if k == "history":
+        return history_case(case)
     if k == "bulk_series":
         return bulk_series(case)
     if k == "std_vs_params":
@@ -569,4 +577,53 @@ def bulk_series(case):
         if d:
             vs.append(viol("bulk_vs_single", "create_%s with Series arguments on a table with %d existing rows: %s" % (what, nexist, d),
                            what=what, table=what, kind="series"))
+    return {"status": "ok", "violations": vs, "nontrivial": True, "sig": core.jhash(case)}
+
+
+def history_case(case):
+    net = make_net(case["net"], case["sector"])
+    R = registry(case["net"] == "populated")
+    table, kw, jargs, bulk = R[case["fn"]]
+    fn = getattr(pp, case["fn"])
+    vs = []
+    tag = {"fn": case["fn"]}
+    if case["fn"] in ("create_pump_from_parameters",):
+        kw = dict(kw)
+    try:
+        ret = call(fn, net, kw)
+    except Exception as e:
+        return {"status": "ok", "violations": [], "nontrivial": False, "sig": core.jhash(case)}
+    idx = list(ret) if bulk else ret
+    before = snapshot(net)
+    kw2 = dict(copy.deepcopy(kw), index=idx)
+    if "new_std_type_name" in kw2:
+        kw2["new_std_type_name"] = "mypump2"
+    try:
+        call(fn, net, kw2)
+        vs.append(viol("invalid_call_accepted", "%s called twice with index %s on %s/%s net: second call accepted" % (
+            case["fn"], idx, case["net"], case["sector"]), fault="duplicate_index_after_valid", **tag))
+    except Exception as e:
+        d = snap_diff(before, snapshot(net))
+        if d and not d.startswith("std_types"):
+            vs.append(viol("rejected_call_changed_net", "%s with duplicate index %s raised %s but changed the net: %s" % (
+                case["fn"], idx, type(e).__name__, d), what="table rows" if d.startswith("table") else d.split(":")[0],
+                fault="duplicate_index_after_valid", **tag))
+    # third call: valid again, automatic index
+    n0 = len(net[table])
+    kw3 = copy.deepcopy(kw)
+    if "new_std_type_name" in kw3:
+        kw3["new_std_type_name"] = "mypump3"
+    try:
+        ret3 = call(fn, net, kw3)
+        new = list(ret3) if bulk else [ret3]
+        if set(new) & set(idx if bulk else [idx]):
+            vs.append(viol("index_not_unique", "%s: third call reused index %s" % (case["fn"], new), **tag))
+        if not net[table].index.is_unique:
+            vs.append(viol("index_not_unique", "%s: table index %s" % (case["fn"], list(net[table].index)), **tag))
+        exp = kw.get("nr_junctions") or (len(next(v for v in kw.values() if isinstance(v, list))) if bulk else 1)
+        if len(net[table]) - n0 != exp:
+            vs.append(viol("row_count", "%s third call: %d rows added, %d requested" % (case["fn"], len(net[table]) - n0, exp), **tag))
+    except Exception as e:
+        vs.append(viol("valid_call_refused", "%s: valid call after a rejected one raised %s: %s" % (case["fn"], type(e).__name__, str(e)[:100]),
+                       sector=case["sector"], **tag))
     return {"status": "ok", "violations": vs, "nontrivial": True, "sig": core.jhash(case)}
